@@ -374,7 +374,7 @@ def evaluate(units, jobs, meta, inputs_of, results, incidents, tier):
             if extra:
                 V.v("C11", "rejected-but-wrote", f"llw reported an error (exit 1) but wrote {extra}", wit)
             # a grammar our references find conflict-free is expected to be accepted: hand to C10
-            if u.meta.get("profile") != "bucket" and re.search(r"error\[E01[1-4]\]", u.llw_stderr):
+            if u.meta.get("profile") not in ("bucket", "rejected") and re.search(r"error\[E01[1-4]\]", u.llw_stderr):
                 V.v("C10", "rejected-conflict-free", "grammar without a conflict by R-conf was rejected with an LL(1) conflict", dict(wit, stderr=u.llw_stderr[-800:]))
     # ---- incidents (hang / death) -----------------------------------------------------------------
     for inc in incidents:
